@@ -3,7 +3,7 @@ from hypothesis import strategies as st
 
 from .. import gen, ops, wm
 from ..classes import ABSENT, BUFFERED, CLASSES
-from ..plain import h64
+from ..plain import enc, h64
 from ..runner import Acc, excl_of, hyp_search
 
 ID = "C06"
@@ -67,6 +67,22 @@ def _gen(ci, dom, plan):
                 hi = draw(st.sampled_from(cand))
                 if kind == "r":
                     return gen.draw_read(draw, w, hi, dom, refs=False)
+                if kind in ("aba_w1", "aba_w2", "aba_r"):
+                    # A-B-A: one object changes the content, another object changes it back to
+                    # byte-identical content, then the first object reads/writes again
+                    root = [i for i in cand if not w.handles[i].path][0]
+                    cont = w.model_at(w.handles[root])
+                    isd = w.handles[root].kind == "dict"
+                    if kind == "aba_r":
+                        return {"t": "op", "h": root, "m": "call", "a": []}
+                    if kind == "aba_w1":
+                        plan["aba_before"] = __import__("copy").deepcopy(cont)
+                        return ({"t": "op", "h": root, "m": "setitem", "a": enc(["aba", 2])} if isd
+                                else {"t": "op", "h": root, "m": "append", "a": enc(["aba"])})
+                    before = plan.get("aba_before")
+                    if before is None:
+                        continue
+                    return {"t": "op", "h": root, "m": "reset", "a": enc([before])}
                 return gen.draw_mutator(draw, w, hi, dom, p_raise=0)
             if plan["nbuf"] > 0:
                 plan["nbuf"] -= 1
@@ -192,6 +208,10 @@ def run_shard(spec, seed, tier, active):
             else:
                 plan["script"] = [("r", r_), ("w", w_)]
                 plan["exit_first"] = r_
+        if draw(st.integers(0, 4)) == 0:
+            a_, b_ = draw(st.permutations(range(k)))[:2]
+            plan["readers"] = set()
+            plan["script"] = [("r", b_), ("aba_w1", b_), ("aba_w2", a_), ("aba_r", b_), ("w", b_)]
         w = wm.run_generated(ID, ci, [init], _gen(ci, dom, plan), draw, 40, engine="bufworld",
                              check_frozen=False, excl=excl)
         acc.excluded += w.excluded
